@@ -21,7 +21,8 @@ Definition KInv (w : world) : Prop :=
      forall ai, In ai (c_member_of ci) <-> exists a, arch_at w ai = Some a /\ In c (a_comps a)) /\
   (forall ai a c, arch_at w ai = Some a -> In c (a_comps a) -> comp_live w c) /\
   (forall i k info c, get_by_index (w_tev w) i = Some (k, info) -> (e_kind info = KInsert c \/ e_kind info = KRemove c) ->
-     exists kc ci, get_by_index (w_comps w) c = Some (kc, ci) /\ In k (c_ins ci ++ c_rem ci)).
+     exists kc ci, get_by_index (w_comps w) c = Some (kc, ci) /\ In k (c_ins ci ++ c_rem ci)) /\
+  (forall tag k, alookup tag (w_cby w) = Some k -> exists ci, sm_get k (w_comps w) = Some ci /\ c_tag ci = tag).
 
 (* the archetypes' component lists, slot by slot *)
 Definition cshape_entry (e : sentry) : option (list N) := match e with SOcc a => Some (a_comps a) | SVac _ => None end.
@@ -36,23 +37,23 @@ Proof.
   destruct (nget (sl_entries (w_archs w')) ai) as [[a'|n']|], (nget (sl_entries (w_archs w)) ai) as [[a|n]|]; cbn in *; congruence.
 Qed.
 
-Lemma KInv_ext w w' : w_comps w' = w_comps w -> w_tev w' = w_tev w -> cshape (w_archs w') = cshape (w_archs w) -> KInv w -> KInv w'.
+Lemma KInv_ext w w' : w_comps w' = w_comps w -> w_cby w' = w_cby w -> w_tev w' = w_tev w -> cshape (w_archs w') = cshape (w_archs w) -> KInv w -> KInv w'.
 Proof.
-  intros Hc Ht Hs (S1 & S2 & K1 & K2 & K3). pose proof (cshape_arch_at w w' Hs) as Ha.
+  intros Hc Hcb Ht Hs (S1 & S2 & K1 & K2 & K3 & K5). pose proof (cshape_arch_at w w' Hs) as Ha.
   assert (Hfw : forall ai a', arch_at w' ai = Some a' -> exists a, arch_at w ai = Some a /\ a_comps a = a_comps a').
   { intros ai a' H. specialize (Ha ai). rewrite H in Ha. destruct (arch_at w ai) as [a|]; cbn in Ha; [|discriminate]. exists a. split; [reflexivity|congruence]. }
   assert (Hbw : forall ai a, arch_at w ai = Some a -> exists a', arch_at w' ai = Some a' /\ a_comps a' = a_comps a).
   { intros ai a H. specialize (Ha ai). rewrite H in Ha. destruct (arch_at w' ai) as [a'|]; cbn in Ha; [|discriminate]. exists a'. split; [reflexivity|congruence]. }
-  unfold KInv, comp_live. rewrite Hc, Ht. split; [exact S1|]. split; [exact S2|]. split; [|split; [|exact K3]].
+  unfold KInv, comp_live. rewrite Hc, Ht, Hcb. split; [exact S1|]. split; [exact S2|]. split; [|split; [|split; [exact K3|exact K5]]].
   - intros c k ci Hg. destruct (K1 c k ci Hg) as [Hnd Hm]. split; [exact Hnd|]. intros ai. rewrite Hm. split.
     + intros (a & Ha' & Hin). destruct (Hbw _ _ Ha') as (a' & Ha'' & Hc'). exists a'. split; [exact Ha''|now rewrite Hc'].
     + intros (a' & Ha' & Hin). destruct (Hfw _ _ Ha') as (a & Ha'' & Hc'). exists a. split; [exact Ha''|now rewrite Hc'].
   - intros ai a' c Ha' Hin. destruct (Hfw _ _ Ha') as (a & Ha'' & Hc'). eapply K2; eauto. now rewrite Hc'.
 Qed.
 
-Lemma structure_cshape w w' : structure w' = structure w -> cshape (w_archs w') = cshape (w_archs w) /\ w_comps w' = w_comps w.
+Lemma structure_cshape w w' : structure w' = structure w -> cshape (w_archs w') = cshape (w_archs w) /\ w_comps w' = w_comps w /\ w_cby w' = w_cby w.
 Proof.
-  unfold structure. intros H. injection H as He Hc Hsh Hn Hb. split; [|exact Hc]. unfold cshape.
+  unfold structure. intros H. injection H as Hcb He Hc Hsh Hn Hb. split; [|split; [exact Hc|exact Hcb]]. unfold cshape.
   set (g := fun x : (list N * list (key * nat) * list (N * N) * list (N * N)) + N => match x with inl (cs, _, _, _) => Some cs | inr _ => None end).
   assert (Hce : forall l, map cshape_entry l = map g (map ashape l)).
   { intros l. rewrite map_map. apply map_ext. intros [a|n]; reflexivity. }
@@ -60,7 +61,7 @@ Proof.
 Qed.
 
 Lemma KInv_structure w w' : structure w' = structure w -> w_tev w' = w_tev w -> KInv w -> KInv w'.
-Proof. intros Hs Ht. destruct (structure_cshape w w' Hs) as [A B]. now apply KInv_ext. Qed.
+Proof. intros Hs Ht. destruct (structure_cshape w w' Hs) as (A & B & C). now apply KInv_ext. Qed.
 
 (* ---------- replacing an archetype by one with the same components keeps cshape ---------- *)
 Lemma cshape_set s i a0 a : slab_get s i = Some a0 -> a_comps a = a_comps a0 -> cshape (slab_set s i a) = cshape s.
@@ -140,3 +141,1008 @@ Proof.
   unfold spawn_all. pose proof (cshape_spawn_all_n (N.to_nat (w_rcnt w)) w) as H.
   destruct (spawn_all_n _ w) as [[] w1|f w1]; exact H.
 Qed.
+
+(* ---------- updating the member_of lists of a set of components ---------- *)
+Section FoldUpd.
+Variables (skip : N -> bool) (f : cinfo -> cinfo).
+Definition fold_upd (cs : list N) (m : smap cinfo) : smap cinfo :=
+  fold_left (fun m c => if skip c then m else upd_by_index m c f) cs m.
+
+Lemma fold_upd_inv cs : forall m, SmInv m -> SmInv (fold_upd cs m).
+Proof. induction cs as [|c cs IH]; intros m Hi; cbn [fold_upd fold_left]; [exact Hi|]. apply IH. destruct (skip c); [exact Hi|now apply upd_index_inv]. Qed.
+
+Lemma fold_upd_gbi cs : NoDup cs -> forall m i,
+  get_by_index (fold_upd cs m) i =
+    if existsb (N.eqb i) cs && negb (skip i) then match get_by_index m i with Some (k, v) => Some (k, f v) | None => None end
+    else get_by_index m i.
+Proof.
+  induction cs as [|c cs IH]; intros Hnd m i; cbn [fold_upd fold_left existsb]; [reflexivity|].
+  inversion Hnd as [|? ? Hni Hnd']; subst. fold (fold_upd cs (if skip c then m else upd_by_index m c f)). rewrite (IH Hnd').
+  destruct (i =? c) eqn:E.
+  - apply N.eqb_eq in E. subst i. cbn [orb].
+    assert (Hex : existsb (N.eqb c) cs = false).
+    { apply not_true_is_false. intros X. apply existsb_exists in X as (x & Hx & Ex). apply N.eqb_eq in Ex. subst. contradiction. }
+    rewrite Hex. cbn [andb]. destruct (skip c); cbn [negb]; [reflexivity|]. now rewrite gbi_upd, N.eqb_refl.
+  - cbn [orb]. destruct (skip c); [reflexivity|]. rewrite gbi_upd, E. reflexivity.
+Qed.
+End FoldUpd.
+
+Lemma existsb_In i l : existsb (N.eqb i) l = true <-> In i l.
+Proof. rewrite existsb_exists. split; [intros (x & Hx & E); apply N.eqb_eq in E; now subst|intros H; exists i; split; [exact H|apply N.eqb_refl]]. Qed.
+
+Lemma sorted_NoDup l : StronglySorted N.lt l -> NoDup l.
+Proof.
+  induction 1 as [|x l Hs IH Hall]; constructor; [|exact IH]. intros Hin. rewrite Forall_forall in Hall. specialize (Hall x Hin). lia.
+Qed.
+
+(* ---------- create_arch ---------- *)
+Lemma create_arch_fields w cs ins rem :
+  w_comps (snd (create_arch w cs ins rem)) =
+    fold_upd (fun _ => false) (fun ci => mkC (c_tag ci) (c_member_of ci ++ [slab_vacant_key (w_archs w)]) (c_ins ci) (c_rem ci)) cs (w_comps w) /\
+  w_cby (snd (create_arch w cs ins rem)) = w_cby w /\ w_tev (snd (create_arch w cs ins rem)) = w_tev w.
+Proof.
+  unfold create_arch.
+  match goal with |- context [fold_left ?g (w_horder ?w1) ?init] => destruct (fold_left g (w_horder w1) init) as [a1 hs1] end.
+  cbn [snd w_comps w_cby w_tev set_archs set_aidx set_hs set_comps]. repeat split.
+Qed.
+
+Lemma create_arch_K w cs ins rem :
+  KInv w -> SlabInv (w_archs w) -> NoDup cs -> (forall c, In c cs -> comp_live w c) ->
+  KInv (snd (create_arch w cs ins rem)).
+Proof.
+  intros (S1 & S2 & K1 & K2 & K3 & K5) Hs Hnd Hlive.
+  destruct (create_arch_spec w cs ins rem) as (a1 & Hcore & Hfst & Harchs & _ & _).
+  destruct (create_arch_fields w cs ins rem) as (Hcomps & Hcby & Htev).
+  set (w1 := snd (create_arch w cs ins rem)) in *. set (vk := slab_vacant_key (w_archs w)) in *.
+  destruct (slab_insert_spec (w_archs w) a1 Hs) as (Hnew & Hvac & Hoth & _). fold vk in Hnew, Hvac, Hoth.
+  assert (Hc1 : a_comps a1 = cs) by (destruct Hcore as (X & _); exact X).
+  assert (Hat : forall j, arch_at w1 j = if j =? vk then Some a1 else arch_at w j).
+  { intros j. unfold arch_at. rewrite Harchs. destruct (j =? vk) eqn:E; [apply N.eqb_eq in E; subst; exact Hnew|apply N.eqb_neq in E; now apply Hoth]. }
+  set (fm := fun ci => mkC (c_tag ci) (c_member_of ci ++ [vk]) (c_ins ci) (c_rem ci)) in *.
+  assert (Hg : forall i, get_by_index (w_comps w1) i =
+     if existsb (N.eqb i) cs then match get_by_index (w_comps w) i with Some (k, v) => Some (k, fm v) | None => None end else get_by_index (w_comps w) i).
+  { intros i. rewrite Hcomps, (fold_upd_gbi (fun _ => false) fm cs Hnd). cbn [negb]. now rewrite andb_true_r. }
+  assert (Hlive' : forall c, comp_live w c -> comp_live w1 c).
+  { unfold comp_live. intros c Hc. rewrite Hg. destruct (existsb (N.eqb c) cs); [|exact Hc]. destruct (get_by_index (w_comps w) c) as [[k v]|]; congruence. }
+  split; [rewrite Hcomps; now apply fold_upd_inv|]. split; [now rewrite Htev|]. split; [|split; [|split]].
+  - intros c k ci' Hgc. rewrite Hg in Hgc. destruct (existsb (N.eqb c) cs) eqn:Ec.
+    + destruct (get_by_index (w_comps w) c) as [[k0 ci]|] eqn:E0; [|discriminate]. inversion Hgc; subst k0 ci'. destruct (K1 c k ci E0) as [Hnd0 Hm].
+      assert (Hnvk : ~ In vk (c_member_of ci)). { intros X. apply Hm in X as (a & Ha & _). unfold arch_at in Ha. congruence. }
+      cbn [c_member_of fm]. split; [apply NoDup_app_snoc; assumption|]. intros ai. rewrite in_app_iff, Hm, Hat. cbn [In]. split.
+      * intros [(a & Ha & Hin)|[<-|[]]].
+        -- exists a. split; [|exact Hin]. destruct (ai =? vk) eqn:E; [|exact Ha]. apply N.eqb_eq in E. subst. unfold arch_at in Ha. congruence.
+        -- rewrite N.eqb_refl. exists a1. split; [reflexivity|]. rewrite Hc1. now apply existsb_In.
+      * intros (a & Ha & Hin). destruct (ai =? vk) eqn:E; [apply N.eqb_eq in E; right; left; now subst|left; eauto].
+    + destruct (K1 c k ci' Hgc) as [Hnd0 Hm]. split; [exact Hnd0|]. intros ai. rewrite Hm, Hat. split.
+      * intros (a & Ha & Hin). exists a. split; [|exact Hin]. destruct (ai =? vk) eqn:E; [|exact Ha]. apply N.eqb_eq in E. subst. unfold arch_at in Ha. congruence.
+      * intros (a & Ha & Hin). destruct (ai =? vk) eqn:E; [|eauto]. inversion Ha; subst a. rewrite Hc1 in Hin. apply existsb_In in Hin. congruence.
+  - intros ai a c Ha Hin. rewrite Hat in Ha. apply Hlive'. destruct (ai =? vk); [inversion Ha; subst a; rewrite Hc1 in Hin; now apply Hlive|eapply K2; eauto].
+  - intros i k info c Hgi Hk. rewrite Htev in Hgi. destruct (K3 i k info c Hgi Hk) as (kc & ci & Hgc & Hin). rewrite Hg, Hgc.
+    destruct (existsb (N.eqb c) cs); [exists kc, (fm ci)|exists kc, ci]; split; auto.
+  - intros tag k Hl. rewrite Hcby in Hl. destruct (K5 tag k Hl) as (ci & Hgk & Ht). pose proof (gbi_of_get _ _ _ Hgk) as Hgi.
+    assert (X : exists ci', get_by_index (w_comps w1) (fst k) = Some (k, ci') /\ c_tag ci' = tag).
+    { rewrite Hg, Hgi. destruct (existsb (N.eqb (fst k)) cs); [exists (fm ci)|exists ci]; split; auto. }
+    destruct X as (ci' & Hg' & Ht'). exists ci'. split; [|exact Ht']. exact (proj2 (get_of_gbi _ _ _ _ Hg')).
+Qed.
+
+(* ---------- the effect primitives ---------- *)
+Definition kreg (w : world) := (w_comps w, w_cby w, w_tev w).
+Lemma KInv_kreg w w' : kreg w' = kreg w -> cshape (w_archs w') = cshape (w_archs w) -> KInv w -> KInv w'.
+Proof. unfold kreg. intros H. injection H as A B C. now apply KInv_ext. Qed.
+
+Lemma kreg_move_entity w src dst nw : kreg (res_world (move_entity w src dst nw)) = kreg w.
+Proof. apply (r_move_entity kreg); reflexivity. Qed.
+Lemma kreg_remove_entity w loc : kreg (res_world (remove_entity w loc)) = kreg w.
+Proof. apply (r_remove_entity kreg); reflexivity. Qed.
+Lemma kreg_spawn_all w : kreg (res_world (spawn_all w)) = kreg w.
+Proof. apply (r_spawn_all kreg); reflexivity. Qed.
+Lemma kreg_upd_arch w ai f : kreg (upd_arch w ai f) = kreg w.
+Proof. apply (r_upd_arch kreg); reflexivity. Qed.
+
+Lemma KInv_upd_edges w ai f : (forall a, a_comps (f a) = a_comps a) -> KInv w -> KInv (upd_arch w ai f).
+Proof. intros H. apply KInv_kreg; [apply kreg_upd_arch|now apply cshape_upd_arch]. Qed.
+
+Lemma traverse_insert_K w src c :
+  KInv w -> GraphInv w -> comp_live w c -> KInv (res_world (traverse_insert w src c)).
+Proof.
+  intros HK (Hs & _ & _ & _ & _ & Hso) Hc. unfold traverse_insert. destruct (slab_get (w_archs w) src) as [sa|] eqn:Ha; [|exact HK].
+  destruct (alookup c (a_ins sa)); [exact HK|]. destruct (arch_has sa c) eqn:Hh; [exact HK|].
+  destruct (aby_lookup w (sorted_insert c (a_comps sa))); cbn [res_world]; [apply KInv_upd_edges; [reflexivity|exact HK]|].
+  assert (Hsorted : StronglySorted N.lt (a_comps sa)) by (eapply Hso; exact Ha).
+  assert (Hnin : ~ In c (a_comps sa)). { intros X. unfold arch_has in Hh. apply existsb_In in X. congruence. }
+  pose proof (create_arch_K w (sorted_insert c (a_comps sa)) [] [(c, src)] HK Hs) as Hcr.
+  destruct (create_arch w (sorted_insert c (a_comps sa)) [] [(c, src)]) as [d w1]. cbn [snd res_world] in *.
+  apply KInv_upd_edges; [reflexivity|]. apply Hcr.
+  - apply sorted_NoDup. now apply sorted_insert_sorted.
+  - intros x Hx. apply sorted_insert_in in Hx as [->|Hx]; [exact Hc|]. destruct HK as (_ & _ & _ & K2 & _). eapply K2; eauto.
+Qed.
+
+Lemma filter_sorted (p : N -> bool) l : StronglySorted N.lt l -> StronglySorted N.lt (filter p l).
+Proof.
+  induction 1 as [|x l Hs IH Hall]; cbn [filter]; [constructor|]. destruct (p x); [|exact IH]. constructor; [exact IH|].
+  rewrite Forall_forall in *. intros y Hy. apply filter_In in Hy as [Hy _]. now apply Hall.
+Qed.
+
+Lemma traverse_remove_K w src c :
+  KInv w -> GraphInv w -> KInv (res_world (traverse_remove w src c)).
+Proof.
+  intros HK (Hs & _ & _ & _ & _ & Hso). unfold traverse_remove. destruct (slab_get (w_archs w) src) as [sa|] eqn:Ha; [|exact HK].
+  destruct (alookup c (a_rem sa)); [exact HK|]. destruct (negb (arch_has sa c)); [exact HK|].
+  destruct (aby_lookup w (filter (fun x => negb (x =? c)) (a_comps sa))); cbn [res_world]; [apply KInv_upd_edges; [reflexivity|exact HK]|].
+  assert (Hsorted : StronglySorted N.lt (a_comps sa)) by (eapply Hso; exact Ha).
+  pose proof (create_arch_K w (filter (fun x => negb (x =? c)) (a_comps sa)) [(c, src)] [] HK Hs) as Hcr.
+  destruct (create_arch w (filter (fun x => negb (x =? c)) (a_comps sa)) [(c, src)] []) as [d w1]. cbn [snd res_world] in *.
+  apply KInv_upd_edges; [reflexivity|]. apply Hcr.
+  - apply sorted_NoDup. now apply filter_sorted.
+  - intros x Hx. apply filter_In in Hx as [Hx _]. destruct HK as (_ & _ & _ & K2 & _). eapply K2; eauto.
+Qed.
+
+Lemma rbind_K {A B} (r : res A) (f : A -> world -> res B) (P : world -> Prop) :
+  P (res_world r) -> (forall a w, P w -> P (res_world (f a w))) -> P (res_world (rbind r f)).
+Proof. intros H1 H2. destruct r as [a w|e w]; cbn [rbind res_world] in *; auto. Qed.
+
+Definition kind_comp_live (w : world) (k : ekind) : Prop :=
+  match k with KInsert c | KRemove c => comp_live w c | _ => True end.
+
+Lemma builtin_effect_K kind ev loc w :
+  KInv w -> GraphInv w -> kind_comp_live w kind -> KInv (res_world (builtin_effect kind ev loc w)).
+Proof.
+  intros HK HG Hl. destruct kind as [|c|c| |]; cbn [builtin_effect].
+  - exact HK.
+  - pose proof (traverse_insert_K w (fst loc) c HK HG Hl) as H. destruct (traverse_insert w (fst loc) c) as [d w2|f w2]; cbn [rbind res_world] in *; [|exact H].
+    eapply KInv_kreg; [apply kreg_move_entity|apply cshape_move_entity|exact H].
+  - pose proof (traverse_remove_K w (fst loc) c HK HG) as H. destruct (traverse_remove w (fst loc) c) as [d w2|f w2]; cbn [rbind res_world] in *; [|exact H].
+    eapply KInv_kreg; [apply kreg_move_entity|apply cshape_move_entity|exact H].
+  - eapply KInv_kreg; [apply kreg_spawn_all|apply cshape_spawn_all|exact HK].
+  - assert (H1 : KInv (res_world (spawn_all w))) by (eapply KInv_kreg; [apply kreg_spawn_all|apply cshape_spawn_all|exact HK]).
+    destruct (spawn_all w) as [[] w2|f w2]; cbn [rbind res_world] in *; [|exact H1].
+    assert (H2 : KInv (res_world (remove_entity w2 loc))) by (eapply KInv_kreg; [apply kreg_remove_entity|apply cshape_remove_entity|exact H1]).
+    destruct (remove_entity w2 loc) as [[] w3|f w3]; cbn [rbind res_world] in *; [|exact H2]. exact H2.
+Qed.
+
+(* ---------- one delivery, the flush loop ---------- *)
+Definition FInv (w : world) : Prop := RInv w /\ KInv w.
+
+Section WithBeh.
+Variable beh : hinfo -> logent -> N -> script.
+
+Lemma tev_run_handlers hl w it tag loc sent : w_tev (fst (fst (fst (fst (run_handlers beh hl w it tag loc sent))))) = w_tev w.
+Proof. apply (r_run_handlers w_tev); reflexivity. Qed.
+Lemma tev_ev_drop w t tag ev : w_tev (ev_drop w t tag ev) = w_tev w.
+Proof. apply (r_ev_drop w_tev); reflexivity. Qed.
+
+Lemma kind_live_of_K3 w i k info : KInv w -> get_by_index (w_tev w) i = Some (k, info) -> kind_comp_live w (e_kind info).
+Proof.
+  intros (_ & _ & _ & _ & K3 & _) Hg. unfold kind_comp_live, comp_live. destruct (e_kind info) as [|c|c| |] eqn:E; auto.
+  - destruct (K3 i k info c Hg (or_introl E)) as (kc & ci & X & _). congruence.
+  - destruct (K3 i k info c Hg (or_intror E)) as (kc & ci & X & _). congruence.
+Qed.
+
+Theorem deliver_one_K it w : WInv w -> GevKinds w -> KInv w -> KInv (snd (fst (deliver_one beh it w))).
+Proof.
+  intros HW HG HK. unfold deliver_one.
+  assert (Hfin : forall tag kind hl loc, kind_comp_live w kind ->
+            KInv (snd (fst (let '(w1, ev, sent, taken, fl) := run_handlers beh hl w it tag loc [] in
+              match fl with
+              | Some f => (sent, (if taken then w1 else ev_drop w1 (qi_targeted it) tag ev), Some f)
+              | None => if taken then (sent, w1, None) else
+                  match kind with
+                  | KNormal => (sent, ev_drop w1 (qi_targeted it) tag ev, None)
+                  | _ => let '(w3, f) := fail_of (builtin_effect kind ev loc w1) in (sent, w3, f)
+                  end
+              end)))).
+  { intros tag kind hl loc Hl. pose proof (handlers_preserve_structure beh hl w it tag loc []) as Hs.
+    pose proof (tev_run_handlers hl w it tag loc []) as Ht.
+    destruct (run_handlers beh hl w it tag loc []) as [[[[w1 ev] sent] taken] fl]. cbn [fst] in Hs, Ht.
+    assert (HK1 : KInv w1) by (eapply KInv_structure; eauto).
+    assert (HW1 : WInv w1) by (eapply WInv_structure; eauto).
+    assert (HKd : forall t tg e0, KInv (ev_drop w1 t tg e0)) by (intros; eapply KInv_structure; [apply s_ev_drop|apply tev_ev_drop|exact HK1]).
+    destruct fl as [f|]; [cbn [fst snd]; destruct taken; auto|].
+    destruct taken; [exact HK1|].
+    assert (Hl1 : kind_comp_live w1 kind).
+    { destruct (structure_cshape w w1 Hs) as (_ & Hc & _). unfold kind_comp_live, comp_live in *. now rewrite Hc. }
+    assert (Heff : KInv (fst (fail_of (builtin_effect kind ev loc w1)))).
+    { pose proof (builtin_effect_K kind ev loc w1 HK1 (proj1 (proj2 HW1)) Hl1) as H.
+      destruct (builtin_effect kind ev loc w1) as [[] w'|f w']; exact H. }
+    destruct kind; try (destruct (fail_of _) as [w3 f]; exact Heff). cbn [fst snd]. apply HKd. }
+  destruct (qi_targeted it).
+  - destruct (get_by_index (w_tev w) (qi_idx it)) as [[k info]|] eqn:Hg; [|exact HK].
+    destruct (sm_get (qi_target it) (w_ents w)) as [loc|]; [|cbn [fst snd]; eapply KInv_structure; [apply s_ev_drop|apply tev_ev_drop|exact HK]].
+    destruct (slab_get (w_archs w) (fst loc)); [|exact HK]. apply Hfin. eapply kind_live_of_K3; eauto.
+  - destruct (get_by_index (w_gev w) (qi_idx it)) as [[k info]|] eqn:Hg; [|exact HK].
+    destruct (nget (w_glists w) (qi_idx it)); [|exact HK]. apply Hfin. pose proof (HG _ _ _ Hg) as X.
+    unfold kind_comp_live. destruct (e_kind info); try exact I; discriminate.
+Qed.
+
+Lemma FInv_parts w : FInv w -> WInv w /\ GevKinds w /\ KInv w.
+Proof. intros [[A B] C]. auto. Qed.
+
+Theorem flush_FInv_loop n q w tr s' oc :
+  Loop.flush wst qitem (run_w beh) unwind_w n q (w, None) [] = Some (tr, s', oc) -> FInv w -> FInv (fst s').
+Proof.
+  intros H HF.
+  apply (flush_invariant wst qitem (run_w beh) unwind_w (fun s : wst => FInv (fst s))) with (n := n) (q := q) (st := (w, None)) (acc := []) (tr := tr) (oc := oc); [| |exact H|exact HF].
+  - intros e st HFs. destruct (FInv_parts _ HFs) as (H1 & H2 & H3). unfold run_w.
+    pose proof (deliver_one_WInv beh e (fst st) H1 H2) as Hd. pose proof (deliver_one_K e (fst st) H1 H2 H3) as Hk.
+    pose proof (deliver_one_keeps_registries beh e (fst st)) as Hr.
+    destruct (deliver_one beh e (fst st)) as [[sent w1] fl]. cbn [fst snd] in *. split; [split; [exact Hd|eapply GevKinds_registries; eauto]|exact Hk].
+  - intros q0 st HFs. destruct (FInv_parts _ HFs) as (H1 & H2 & H3). unfold unwind_w. destruct (snd st) as [[k|s]|]; try exact HFs. cbn [fst].
+    assert (Hsu : structure (unwind_queue q0 (fst st)) = structure (fst st)) by (unfold unwind_queue; apply (fold_left_pres structure); intros; apply s_ev_drop).
+    assert (Htu : w_tev (unwind_queue q0 (fst st)) = w_tev (fst st)) by (apply (r_unwind_queue w_tev); reflexivity).
+    assert (HWu : WInv (unwind_queue q0 (fst st))) by (eapply WInv_structure; eauto).
+    assert (HKu : GevKinds (unwind_queue q0 (fst st))) by (eapply GevKinds_registries; [apply unwind_queue_keeps_registries|exact H2]).
+    assert (HKK : KInv (unwind_queue q0 (fst st))) by (eapply KInv_structure; eauto).
+    pose proof (spawn_all_ok _ HWu) as Hs. pose proof (spawn_all_keeps_registries (unwind_queue q0 (fst st))) as Hr.
+    assert (HK2 : KInv (res_world (spawn_all (unwind_queue q0 (fst st))))) by (eapply KInv_kreg; [apply kreg_spawn_all|apply cshape_spawn_all|exact HKK]).
+    destruct (spawn_all (unwind_queue q0 (fst st))) as [[] w3|f w3]; cbn [res_world] in Hr, HK2.
+    + split; [split; [exact (proj1 Hs)|eapply GevKinds_registries; eauto]|exact HK2].
+    + split; [split; [exact (proj1 (proj2 Hs))|eapply GevKinds_registries; eauto]|exact HK2].
+Qed.
+
+Lemma flush_FInv q w : FInv w -> FInv (res_world (flush beh q w)).
+Proof.
+  intros HF. unfold flush, flush_loop.
+  destruct (Loop.flush wst qitem (run_w beh) unwind_w FUEL q (w, None) []) as [[[tr [w1 fl]] oc]|] eqn:E; [|exact HF].
+  pose proof (flush_FInv_loop _ _ _ _ _ _ E HF) as H1. cbn [fst] in H1.
+  destruct oc; [|destruct fl; exact H1]. cbn [res_world]. exact H1.
+Qed.
+End WithBeh.
+
+(* ---------- the component registry modulo member_of is untouched by sending ---------- *)
+Definition cstat (ci : cinfo) := (c_tag ci, c_ins ci, c_rem ci).
+Definition creg (w : world) := (map (fun s => (gen s, link s, option_map cstat (val s))) (slots (w_comps w)), w_cby w, w_tev w).
+
+Lemma creg_of_kreg w w' : kreg w' = kreg w -> creg w' = creg w.
+Proof. unfold kreg, creg. intros H. injection H as -> -> ->. reflexivity. Qed.
+
+Lemma supd_map {V B} (g : slot V -> B) (l : list (slot V)) i x y : sget l i = Some y -> g x = g y -> map g (supd l i x) = map g l.
+Proof.
+  rewrite supd_upd, sget_nth. generalize (N.to_nat i). clear i. intros n. revert n. induction l as [|h t IH]; intros [|n] H E; cbn in *; try discriminate.
+  - inversion H; subst. now rewrite E.
+  - f_equal. now apply IH.
+Qed.
+
+Lemma creg_upd_member (m : smap cinfo) c (f : cinfo -> cinfo) : (forall ci, cstat (f ci) = cstat ci) ->
+  map (fun s => (gen s, link s, option_map cstat (val s))) (slots (upd_by_index m c f)) = map (fun s => (gen s, link s, option_map cstat (val s))) (slots m).
+Proof.
+  intros Hf. unfold upd_by_index. destruct (sget (slots m) c) as [s|] eqn:Es; [|reflexivity]. destruct (val s) as [v|] eqn:Ev; [|reflexivity].
+  cbn [slots]. eapply supd_map; [exact Es|]. cbn [gen link val option_map]. now rewrite Ev, Hf.
+Qed.
+
+Lemma creg_fold_upd skip f cs : (forall ci, cstat (f ci) = cstat ci) -> forall m,
+  map (fun s => (gen s, link s, option_map cstat (val s))) (slots (fold_upd skip f cs m)) = map (fun s => (gen s, link s, option_map cstat (val s))) (slots m).
+Proof.
+  intros Hf. induction cs as [|c cs IH]; intros m; cbn [fold_upd fold_left]; [reflexivity|].
+  fold (fold_upd skip f cs (if skip c then m else upd_by_index m c f)). rewrite IH. destruct (skip c); [reflexivity|now apply creg_upd_member].
+Qed.
+
+Lemma creg_create_arch w cs ins rem : creg (snd (create_arch w cs ins rem)) = creg w.
+Proof.
+  destruct (create_arch_fields w cs ins rem) as (A & B & C). unfold creg. rewrite A, B, C. f_equal. f_equal. apply creg_fold_upd. reflexivity.
+Qed.
+Lemma creg_traverse_insert w src c : creg (res_world (traverse_insert w src c)) = creg w.
+Proof.
+  unfold traverse_insert. destruct (slab_get (w_archs w) src) as [sa|]; [|reflexivity]. destruct (alookup c (a_ins sa)); [reflexivity|].
+  destruct (arch_has sa c); [reflexivity|]. destruct (aby_lookup w _); cbn [res_world]; [apply creg_of_kreg, kreg_upd_arch|].
+  pose proof (creg_create_arch w (sorted_insert c (a_comps sa)) [] [(c, src)]) as H. destruct (create_arch w _ _ _) as [d w1]. cbn [snd res_world] in *.
+  rewrite <- H. apply creg_of_kreg, kreg_upd_arch.
+Qed.
+Lemma creg_traverse_remove w src c : creg (res_world (traverse_remove w src c)) = creg w.
+Proof.
+  unfold traverse_remove. destruct (slab_get (w_archs w) src) as [sa|]; [|reflexivity]. destruct (alookup c (a_rem sa)); [reflexivity|].
+  destruct (negb (arch_has sa c)); [reflexivity|]. destruct (aby_lookup w _); cbn [res_world]; [apply creg_of_kreg, kreg_upd_arch|].
+  pose proof (creg_create_arch w (filter (fun x => negb (x =? c)) (a_comps sa)) [(c, src)] []) as H. destruct (create_arch w _ _ _) as [d w1]. cbn [snd res_world] in *.
+  rewrite <- H. apply creg_of_kreg, kreg_upd_arch.
+Qed.
+Lemma creg_builtin_effect kind ev loc w : creg (res_world (builtin_effect kind ev loc w)) = creg w.
+Proof.
+  destruct kind as [|c|c| |]; cbn [builtin_effect]; [reflexivity| | | |].
+  - pose proof (creg_traverse_insert w (fst loc) c) as H. destruct (traverse_insert w (fst loc) c) as [d w2|f w2]; cbn [rbind res_world] in *; [|exact H].
+    rewrite <- H. apply creg_of_kreg, kreg_move_entity.
+  - pose proof (creg_traverse_remove w (fst loc) c) as H. destruct (traverse_remove w (fst loc) c) as [d w2|f w2]; cbn [rbind res_world] in *; [|exact H].
+    rewrite <- H. apply creg_of_kreg, kreg_move_entity.
+  - apply creg_of_kreg, kreg_spawn_all.
+  - pose proof (kreg_spawn_all w) as H1. destruct (spawn_all w) as [[] w2|f w2]; cbn [rbind res_world] in *; [|now apply creg_of_kreg].
+    pose proof (kreg_remove_entity w2 loc) as H2. destruct (remove_entity w2 loc) as [[] w3|f w3]; cbn [rbind res_world] in *; apply creg_of_kreg; unfold kreg in *; cbn [w_comps w_cby w_tev refresh_cursor set_res]; congruence.
+Qed.
+
+Section WithBeh2.
+Variable beh : hinfo -> logent -> N -> script.
+
+Lemma creg_structure w w' : structure w' = structure w -> w_tev w' = w_tev w -> creg w' = creg w.
+Proof. intros Hs Ht. destruct (structure_cshape w w' Hs) as (_ & A & B). unfold creg. now rewrite A, B, Ht. Qed.
+
+Lemma creg_deliver_one it w : creg (snd (fst (deliver_one beh it w))) = creg w.
+Proof.
+  unfold deliver_one.
+  assert (Hfin : forall tag kind hl loc,
+            creg (snd (fst (let '(w1, ev, sent, taken, fl) := run_handlers beh hl w it tag loc [] in
+              match fl with
+              | Some f => (sent, (if taken then w1 else ev_drop w1 (qi_targeted it) tag ev), Some f)
+              | None => if taken then (sent, w1, None) else
+                  match kind with
+                  | KNormal => (sent, ev_drop w1 (qi_targeted it) tag ev, None)
+                  | _ => let '(w3, f) := fail_of (builtin_effect kind ev loc w1) in (sent, w3, f)
+                  end
+              end))) = creg w).
+  { intros tag kind hl loc. pose proof (handlers_preserve_structure beh hl w it tag loc []) as Hs.
+    pose proof (tev_run_handlers beh hl w it tag loc []) as Ht.
+    destruct (run_handlers beh hl w it tag loc []) as [[[[w1 ev] sent] taken] fl]. cbn [fst] in Hs, Ht.
+    assert (H1 : creg w1 = creg w) by now apply creg_structure.
+    assert (Hd : forall t tg e0, creg (ev_drop w1 t tg e0) = creg w) by (intros; rewrite <- H1; apply creg_structure; [apply s_ev_drop|apply tev_ev_drop]).
+    destruct fl as [f|]; [cbn [fst snd]; destruct taken; auto|]. destruct taken; [exact H1|].
+    assert (Heff : creg (fst (fail_of (builtin_effect kind ev loc w1))) = creg w).
+    { rewrite <- H1. pose proof (creg_builtin_effect kind ev loc w1) as H. destruct (builtin_effect kind ev loc w1); exact H. }
+    destruct kind; try (destruct (fail_of _) as [w3 f]; exact Heff). cbn [fst snd]. apply Hd. }
+  destruct (qi_targeted it).
+  - destruct (get_by_index (w_tev w) (qi_idx it)) as [[k info]|]; [|reflexivity].
+    destruct (sm_get (qi_target it) (w_ents w)) as [loc|]; [|cbn [fst snd]; apply creg_structure; [apply s_ev_drop|apply tev_ev_drop]].
+    destruct (slab_get (w_archs w) (fst loc)); [|reflexivity]. apply Hfin.
+  - destruct (get_by_index (w_gev w) (qi_idx it)) as [[k info]|]; [|reflexivity].
+    destruct (nget (w_glists w) (qi_idx it)); [|reflexivity]. apply Hfin.
+Qed.
+
+Lemma creg_flush q w : creg (res_world (flush beh q w)) = creg w.
+Proof.
+  unfold flush, flush_loop.
+  destruct (Loop.flush wst qitem (run_w beh) unwind_w FUEL q (w, None) []) as [[[tr [w1 fl]] oc]|] eqn:E; [|reflexivity].
+  assert (H : creg w1 = creg w).
+  { change (creg w1) with ((fun s : wst => creg (fst s)) (w1, fl)). change (creg w) with ((fun s : wst => creg (fst s)) (w, @None fail)).
+    eapply (flush_preserves wst qitem (run_w beh) unwind_w (fun s : wst => creg (fst s))); [| |exact E].
+    - intros e st. unfold run_w. pose proof (creg_deliver_one e (fst st)) as Hd. destruct (deliver_one beh e (fst st)) as [[sent w2] fl2]. exact Hd.
+    - intros q0 st. unfold unwind_w. destruct (snd st) as [[k|s]|]; try reflexivity. cbn [fst].
+      assert (Hu : creg (unwind_queue q0 (fst st)) = creg (fst st)).
+      { apply creg_structure; [unfold unwind_queue; apply (fold_left_pres structure); intros; apply s_ev_drop|apply (r_unwind_queue w_tev); reflexivity]. }
+      rewrite <- Hu. pose proof (kreg_spawn_all (unwind_queue q0 (fst st))) as Hs. destruct (spawn_all _); now apply creg_of_kreg. }
+  destruct oc; [exact H|destruct fl; exact H].
+Qed.
+
+Lemma creg_gev fuel : forall tag w,
+  creg (res_world (add_global_event beh fuel tag w)) = creg w /\ forall ev, creg (res_world (send_global beh fuel tag ev w)) = creg w.
+Proof.
+  induction fuel as [|f IH]; intros tag w; [split; reflexivity|].
+  assert (Hadd : creg (res_world (add_global_event beh (S f) tag w)) = creg w).
+  { rewrite add_global_event_S. destruct (alookup tag (w_gby w)); [reflexivity|].
+    destruct (insert_with (fun _ => mkE tag (gkind tag)) (w_gev w)) as [[k m]|]; [|reflexivity]. cbn zeta.
+    set (w2 := set_glists _ _). destruct (IH G_ADDGE w2) as [_ Hs]. specialize (Hs (mkEv 0 0 k)).
+    destruct (send_global beh f G_ADDGE (mkEv 0 0 k) w2); exact Hs. }
+  split; [exact Hadd|]. intros ev. rewrite send_global_S. destruct (IH tag w) as [Ha _].
+  destruct (add_global_event beh f tag w) as [k w1|e w1]; cbn [res_world] in *.
+  - rewrite creg_flush. destruct (10 <? tag); exact Ha.
+  - rewrite <- Ha. apply creg_structure; [apply s_ev_drop|apply tev_ev_drop].
+Qed.
+Lemma creg_send_global tag ev w : creg (res_world (send_global beh RFUEL tag ev w)) = creg w.
+Proof. exact (proj2 (creg_gev RFUEL tag w) ev). Qed.
+End WithBeh2.
+
+(* what creg equality gives about one component *)
+Lemma creg_get w w' k ci : creg w' = creg w -> sm_get k (w_comps w) = Some ci ->
+  exists ci', sm_get k (w_comps w') = Some ci' /\ cstat ci' = cstat ci.
+Proof.
+  unfold creg. intros H Hg. injection H as Hm _ _. destruct (sm_get_some_inv _ _ _ Hg) as (s & Hs & Hgen & Hv).
+  assert (E : option_map (fun s => (gen s, link s, option_map cstat (val s))) (sget (slots (w_comps w')) (fst k)) =
+              option_map (fun s => (gen s, link s, option_map cstat (val s))) (sget (slots (w_comps w)) (fst k))).
+  { rewrite !sget_nth, <- !nth_error_map. now rewrite Hm. }
+  rewrite Hs in E. destruct (sget (slots (w_comps w')) (fst k)) as [s'|] eqn:Es'; cbn in E; [|discriminate].
+  injection E as Eg _ Ev. rewrite Hv in Ev. destruct (val s') as [ci'|] eqn:Ev'; cbn in Ev; [|discriminate]. injection Ev as E1 E2 E3.
+  exists ci'. split; [|unfold cstat; congruence]. unfold sm_get. rewrite Es', Eg, Hgen, N.eqb_refl. exact Ev'.
+Qed.
+
+(* ---------- registration and sending keep the full invariant ---------- *)
+Lemma FInv_same_k w w' : RInv w' -> kreg w' = kreg w -> cshape (w_archs w') = cshape (w_archs w) -> FInv w -> FInv w'.
+Proof. intros HR Hk Hc [_ HK]. split; [exact HR|]. eapply KInv_kreg; eauto. Qed.
+
+Section Ops.
+Variable beh : hinfo -> logent -> N -> script.
+
+Lemma gev_FInv fuel : forall tag w, FInv w ->
+  FInv (res_world (add_global_event beh fuel tag w)) /\ forall ev, FInv (res_world (send_global beh fuel tag ev w)).
+Proof.
+  induction fuel as [|f IH]; intros tag w HF; [split; [exact HF|intros; exact HF]|].
+  assert (Hadd : FInv (res_world (add_global_event beh (S f) tag w))).
+  { rewrite add_global_event_S. destruct (alookup tag (w_gby w)); [exact HF|].
+    destruct (insert_with (fun _ => mkE tag (gkind tag)) (w_gev w)) as [[k m]|] eqn:Ei; [|exact HF]. cbn zeta.
+    set (w2 := set_glists _ _).
+    assert (HF2 : FInv w2).
+    { destruct HF as [[HW HK] HKK]. split; [split; [eapply WInv_ext; [| | |exact HW]; reflexivity|]|exact HKK].
+      intros i k' info Hg. unfold w2 in Hg. cbn [w_gev set_glists set_hreg set_gev] in Hg.
+      destruct (gbi_insert _ _ _ _ _ _ _ Ei Hg) as [->|Hold]; [|eauto]. cbn [e_kind]. unfold gkind. now destruct (tag =? G_SPAWN). }
+    destruct (IH G_ADDGE w2 HF2) as [_ Hs]. specialize (Hs (mkEv 0 0 k)).
+    destruct (send_global beh f G_ADDGE (mkEv 0 0 k) w2); exact Hs. }
+  split; [exact Hadd|]. intros ev. rewrite send_global_S.
+  destruct (IH tag w HF) as [Ha _]. destruct (add_global_event beh f tag w) as [k w1|e w1]; cbn [res_world] in *.
+  - apply flush_FInv. destruct (10 <? tag); exact Ha.
+  - destruct Ha as [HR HK]. split; [now apply RInv_ev_drop|]. eapply KInv_structure; [apply s_ev_drop|apply tev_ev_drop|exact HK].
+Qed.
+Lemma send_global_FInv tag ev w : FInv w -> FInv (res_world (send_global beh RFUEL tag ev w)).
+Proof. intros H. exact (proj2 (gev_FInv RFUEL tag w H) ev). Qed.
+Lemma add_global_event_FInv tag w : FInv w -> FInv (res_world (add_global_event beh RFUEL tag w)).
+Proof. intros H. exact (proj1 (gev_FInv RFUEL tag w H)). Qed.
+
+(* add_component: the key it returns names a live component carrying that tag *)
+Lemma add_component_FInv tag w : FInv w ->
+  FInv (res_world (add_component beh tag w)) /\
+  match add_component beh tag w with
+  | ROk k w' => exists ci, sm_get k (w_comps w') = Some ci /\ c_tag ci = tag
+  | RFail _ _ => True
+  end.
+Proof.
+  intros HF. pose proof HF as [HR (S1 & S2 & K1 & K2 & K3 & K5)]. unfold add_component.
+  destruct (alookup tag (w_cby w)) as [k0|] eqn:El.
+  { split; [exact HF|]. exact (K5 tag k0 El). }
+  destruct (insert_with (fun _ => mkC tag [] [] []) (w_comps w)) as [[k m]|] eqn:Ei; [|split; [exact HF|exact I]].
+  set (w1 := set_comps w m (ainsert tag k (w_cby w))).
+  assert (Hfresh : get_by_index (w_comps w) (fst k) = None) by (eapply gbi_insert_fresh; eauto).
+  assert (Hnew : get_by_index m (fst k) = Some (k, mkC tag [] [] [])) by (eapply (gbi_insert_new (fun _ => mkC tag [] [] [])); eauto).
+  assert (Hold : forall i, i <> fst k -> get_by_index m i = get_by_index (w_comps w) i) by (intros; eapply gbi_insert_other; eauto).
+  assert (HK1 : KInv w1).
+  { split; [eapply insert_inv; eauto|]. split; [exact S2|]. split; [|split; [|split]].
+    - intros c kc ci Hg. cbn [w_comps w1 set_comps] in Hg. destruct (N.eq_dec c (fst k)) as [->|Hne].
+      + rewrite Hnew in Hg. assert (Eci : ci = mkC tag [] [] []) by congruence. subst ci. cbn [c_member_of]. split; [constructor|]. intros ai. split; [intros []|].
+        intros (a & Ha & Hin). exfalso. apply (K2 ai a (fst k) Ha Hin). exact Hfresh.
+      + rewrite Hold in Hg by exact Hne. exact (K1 c kc ci Hg).
+    - intros ai a c Ha Hin. unfold comp_live. cbn [w_comps w1 set_comps]. destruct (N.eq_dec c (fst k)) as [->|Hne]; [now rewrite Hnew|].
+      rewrite Hold by exact Hne. exact (K2 ai a c Ha Hin).
+    - intros i kk info c Hg Hk. destruct (K3 i kk info c Hg Hk) as (kc & ci & Hgc & Hin). exists kc, ci. split; [|exact Hin].
+      cbn [w_comps w1 set_comps]. eapply gbi_insert_old; eauto.
+    - intros tag' k' Hl. cbn [w_cby w_comps w1 set_comps] in *. destruct (N.eq_dec tag' tag) as [->|Hne].
+      + rewrite alookup_ainsert_eq in Hl. inversion Hl; subst k'. exists (mkC tag [] [] []). split; [exact (proj2 (get_of_gbi _ _ _ _ Hnew))|reflexivity].
+      + rewrite alookup_ainsert_neq in Hl by exact Hne. destruct (K5 tag' k' Hl) as (ci & Hg & Ht). exists ci. split; [|exact Ht].
+        rewrite (insert_get_other _ _ _ _ k' S1 Ei); [exact Hg|]. intros ->. rewrite (insert_get_fresh _ _ _ _ S1 Ei) in Hg. discriminate. }
+  assert (HF1 : FInv w1) by (split; [apply (RInv_ext w); try reflexivity; exact HR|exact HK1]).
+  pose proof (send_global_FInv G_ADDC (mkEv 0 0 k) w1 HF1) as Hs. pose proof (creg_send_global beh G_ADDC (mkEv 0 0 k) w1) as Hc.
+  destruct (send_global beh RFUEL G_ADDC (mkEv 0 0 k) w1) as [[] w2|f w2]; cbn [rbind res_world] in *; [|split; [exact Hs|exact I]].
+  split; [exact Hs|]. destruct (creg_get w1 w2 k (mkC tag [] [] []) Hc (proj2 (get_of_gbi _ _ _ _ Hnew))) as (ci' & Hg' & Hst).
+  exists ci'. split; [exact Hg'|]. unfold cstat in Hst. now inversion Hst.
+Qed.
+End Ops.
+
+(* growing the insert/remove event lists of one component *)
+Lemma KInv_grow_lists w c f :
+  (forall ci, c_tag (f ci) = c_tag ci /\ c_member_of (f ci) = c_member_of ci /\ incl (c_ins ci ++ c_rem ci) (c_ins (f ci) ++ c_rem (f ci))) ->
+  KInv w -> KInv (set_comps w (upd_by_index (w_comps w) c f) (w_cby w)).
+Proof.
+  intros Hf (S1 & S2 & K1 & K2 & K3 & K5). unfold KInv, comp_live. cbn [w_comps w_tev w_cby set_comps].
+  change (arch_at (set_comps w (upd_by_index (w_comps w) c f) (w_cby w))) with (arch_at w).
+  split; [now apply upd_index_inv|]. split; [exact S2|]. split; [|split; [|split]].
+  - intros i k ci' Hg. rewrite gbi_upd in Hg. destruct (i =? c); [|exact (K1 i k ci' Hg)].
+    destruct (get_by_index (w_comps w) i) as [[k0 ci]|] eqn:E; [|discriminate]. inversion Hg; subst. destruct (Hf ci) as (_ & Hm & _). rewrite Hm. exact (K1 i k ci E).
+  - intros ai a i Ha Hin. rewrite gbi_upd. pose proof (K2 ai a i Ha Hin) as X. unfold comp_live in X. destruct (i =? c); [|exact X].
+    destruct (get_by_index (w_comps w) i) as [[k0 ci]|]; congruence.
+  - intros i k info c0 Hg Hk. destruct (K3 i k info c0 Hg Hk) as (kc & ci & Hgc & Hin). rewrite gbi_upd, Hgc.
+    destruct (c0 =? c); [exists kc, (f ci); split; [reflexivity|apply (proj2 (proj2 (Hf ci))); exact Hin]|exists kc, ci; auto].
+  - intros tag k Hl. destruct (K5 tag k Hl) as (ci & Hg & Ht). pose proof (gbi_of_get _ _ _ Hg) as Hgi.
+    assert (X : exists ci', get_by_index (upd_by_index (w_comps w) c f) (fst k) = Some (k, ci') /\ c_tag ci' = tag).
+    { rewrite gbi_upd, Hgi. destruct (fst k =? c); [exists (f ci); split; [reflexivity|]; now rewrite (proj1 (Hf ci))|exists ci; auto]. }
+    destruct X as (ci' & Hg' & Ht'). exists ci'. split; [exact (proj2 (get_of_gbi _ _ _ _ Hg'))|exact Ht'].
+Qed.
+
+Lemma KInv_insert_tev w k m tag kind tby :
+  KInv w -> insert_with (fun _ => mkE tag kind) (w_tev w) = Some (k, m) ->
+  (forall c, kind = KInsert c \/ kind = KRemove c -> exists kc ci, get_by_index (w_comps w) c = Some (kc, ci) /\ In k (c_ins ci ++ c_rem ci)) ->
+  KInv (set_tev w m tby).
+Proof.
+  intros (S1 & S2 & K1 & K2 & K3 & K5) Ei Hnew. unfold KInv, comp_live. cbn [w_comps w_tev w_cby set_tev].
+  change (arch_at (set_tev w m tby)) with (arch_at w).
+  split; [exact S1|]. split; [eapply insert_inv; eauto|]. split; [exact K1|]. split; [exact K2|]. split; [|exact K5].
+  intros i k' info c Hg Hk. destruct (N.eq_dec i (fst k)) as [->|Hne].
+  - rewrite (gbi_insert_new _ _ _ _ S2 Ei) in Hg. inversion Hg; subst k' info. cbn [e_kind] in Hk. now apply Hnew.
+  - rewrite (gbi_insert_other _ _ _ _ i S2 Ei Hne) in Hg. exact (K3 i k' info c Hg Hk).
+Qed.
+
+Section Ops2.
+Variable beh : hinfo -> logent -> N -> script.
+
+Lemma add_targeted_event_FInv tag w : FInv w -> FInv (res_world (add_targeted_event beh tag w)).
+Proof.
+  intros HF. unfold add_targeted_event.
+  set (stage1 := if (20 <=? tag) && (tag <? 40) then _ else _).
+  assert (H1 : FInv (res_world stage1) /\ match stage1 with ROk kind w0 => kind_comp_live w0 kind | RFail _ _ => True end).
+  { unfold stage1. destruct ((20 <=? tag) && (tag <? 40)).
+    - destruct (add_component_FInv beh (tag - 20) w HF) as [A B]. destruct (add_component beh (tag - 20) w) as [c w'|f w']; cbn [rbind res_world] in *; [|auto].
+      split; [exact A|]. destruct B as (ci & Hg & _). unfold kind_comp_live, comp_live. rewrite (gbi_of_get _ _ _ Hg). discriminate.
+    - destruct ((40 <=? tag) && (tag <? 60)).
+      + destruct (add_component_FInv beh (tag - 40) w HF) as [A B]. destruct (add_component beh (tag - 40) w) as [c w'|f w']; cbn [rbind res_world] in *; [|auto].
+        split; [exact A|]. destruct B as (ci & Hg & _). unfold kind_comp_live, comp_live. rewrite (gbi_of_get _ _ _ Hg). discriminate.
+      + destruct (tag =? T_DESPAWN); cbn [res_world]; split; try exact HF; exact I. }
+  destruct H1 as [HF0 Hl]. destruct stage1 as [kind w0|f w0]; cbn [rbind res_world] in *; [|exact HF0].
+  destruct (alookup tag (w_tby w0)); [exact HF0|].
+  destruct (insert_with (fun _ => mkE tag kind) (w_tev w0)) as [[k m]|] eqn:Ei; [|exact HF0].
+  apply rbind_K; [|intros; assumption]. apply send_global_FInv. destruct HF0 as [HR0 HK0].
+  split; [destruct kind; apply (RInv_ext w0); try reflexivity; exact HR0|].
+  destruct kind as [|c|c| |].
+  - eapply KInv_insert_tev; eauto. intros c [X|X]; discriminate.
+  - change (KInv (set_tev (set_comps w0 (upd_by_index (w_comps w0) c (fun ci => mkC (c_tag ci) (c_member_of ci) (c_ins ci ++ [k]) (c_rem ci))) (w_cby w0)) m (ainsert tag k (w_tby w0)))).
+    eapply KInv_insert_tev; [apply KInv_grow_lists; [|exact HK0]|exact Ei|].
+    + intros ci. cbn. repeat split. intros x Hx. apply in_app_or in Hx as [Hx|Hx]; apply in_or_app; [left; apply in_or_app; now left|now right].
+    + intros c' [X|X]; inversion X; subst c'. cbn [w_comps set_comps]. rewrite gbi_upd, N.eqb_refl.
+      unfold kind_comp_live, comp_live in Hl. destruct (get_by_index (w_comps w0) c) as [[kc ci]|]; [|contradiction].
+      exists kc, (mkC (c_tag ci) (c_member_of ci) (c_ins ci ++ [k]) (c_rem ci)). split; [reflexivity|]. cbn. apply in_or_app. left. apply in_or_app. right. now left.
+  - change (KInv (set_tev (set_comps w0 (upd_by_index (w_comps w0) c (fun ci => mkC (c_tag ci) (c_member_of ci) (c_ins ci) (c_rem ci ++ [k]))) (w_cby w0)) m (ainsert tag k (w_tby w0)))).
+    eapply KInv_insert_tev; [apply KInv_grow_lists; [|exact HK0]|exact Ei|].
+    + intros ci. cbn. repeat split. intros x Hx. apply in_app_or in Hx as [Hx|Hx]; apply in_or_app; [now left|right; apply in_or_app; now left].
+    + intros c' [X|X]; inversion X; subst c'. cbn [w_comps set_comps]. rewrite gbi_upd, N.eqb_refl.
+      unfold kind_comp_live, comp_live in Hl. destruct (get_by_index (w_comps w0) c) as [[kc ci]|]; [|contradiction].
+      exists kc, (mkC (c_tag ci) (c_member_of ci) (c_ins ci) (c_rem ci ++ [k])). split; [reflexivity|]. cbn. apply in_or_app. right. apply in_or_app. right. now left.
+  - eapply KInv_insert_tev; eauto. intros c [X|X]; discriminate.
+  - eapply KInv_insert_tev; eauto. intros c [X|X]; discriminate.
+Qed.
+
+Lemma send_to_FInv tag target ev w : FInv w -> FInv (res_world (send_to beh tag target ev w)).
+Proof.
+  intros HF. unfold send_to. pose proof (add_targeted_event_FInv tag w HF) as H.
+  destruct (add_targeted_event beh tag w) as [k w1|e w1]; cbn [res_world] in *; [now apply flush_FInv|].
+  destruct H as [HR HK]. split; [now apply RInv_ev_drop|]. eapply KInv_structure; [apply s_ev_drop|apply tev_ev_drop|exact HK].
+Qed.
+
+Theorem op_spawn_FInv w : FInv w -> FInv (res_world (op_spawn beh w)).
+Proof.
+  intros HF. unfold op_spawn. apply rbind_K.
+  - unfold reserve. repeat break_match; cbn [res_world]; exact HF.
+  - intros id w1 HF1. apply rbind_K; [now apply send_global_FInv|]. intros [] w2 HF2. exact HF2.
+Qed.
+Theorem op_insert_FInv e ktag w : FInv w -> FInv (res_world (op_insert beh e ktag w)).
+Proof.
+  intros HF. unfold op_insert. destruct (new_cval w ktag) as [v w1] eqn:E. apply send_to_FInv.
+  assert (w1 = snd (new_cval w ktag)) by now rewrite E. subst w1. unfold new_cval. destruct (ctag_zst ktag); exact HF.
+Qed.
+Theorem op_remove_FInv e ktag w : FInv w -> FInv (res_world (op_remove beh e ktag w)).
+Proof. intros HF. unfold op_remove. now apply send_to_FInv. Qed.
+Theorem op_despawn_FInv e w : FInv w -> FInv (res_world (op_despawn beh e w)).
+Proof. intros HF. unfold op_despawn. now apply send_to_FInv. Qed.
+Theorem op_send_FInv gtag w : FInv w -> FInv (res_world (op_send beh gtag w)).
+Proof. intros HF. unfold op_send. cbn [fresh_serial]. apply send_global_FInv. exact HF. Qed.
+Theorem op_send_to_FInv e ttag w : FInv w -> FInv (res_world (op_send_to beh e ttag w)).
+Proof. intros HF. unfold op_send_to. cbn [fresh_serial]. apply send_to_FInv. exact HF. Qed.
+End Ops2.
+
+(* ---------- handlers ---------- *)
+Lemma kreg_archs_register_handler w hk : kreg (archs_register_handler w hk) = kreg w.
+Proof. unfold archs_register_handler. apply (fold_left_pres kreg). intros w' [ai x]. repeat break_match; reflexivity. Qed.
+
+Section Ops3.
+Variable beh : hinfo -> logent -> N -> script.
+
+Lemma resolve_query_FInv q : forall w, FInv w -> FInv (res_world (resolve_query beh q w)).
+Proof.
+  induction q as [c|c|qs IH|q IH|l r IHl IHr|l r IHl IHr|q IH|q IH|q IH|] using query_ind'; intros w HF; cbn [resolve_query];
+    try (apply rbind_K; [exact (proj1 (add_component_FInv beh c w HF))|intros; assumption]);
+    try (apply rbind_K; [now apply IH|intros; assumption]);
+    try (apply rbind_K; [now apply IHl|intros ? w1 HF1; apply rbind_K; [now apply IHr|intros; assumption]]);
+    try exact HF.
+  apply rbind_K; [|intros; assumption].
+  revert w HF. induction IH as [|x t Hx _ IHt]; intros w HF; [exact HF|].
+  apply rbind_K; [now apply Hx|]. intros x' w1 HF1. apply rbind_K; [now apply IHt|intros; assumption].
+Qed.
+
+Lemma register_set_FInv evs : forall w, FInv w -> FInv (res_world (register_set beh evs w)).
+Proof.
+  induction evs as [|[t tag] rest IH]; intros w HF; cbn [register_set]; [exact HF|].
+  apply rbind_K.
+  - destruct t; [now apply add_targeted_event_FInv|now apply add_global_event_FInv].
+  - intros k w1 HF1. apply rbind_K; [now apply IH|intros; assumption].
+Qed.
+
+Lemma init_param_FInv p c w : FInv w -> FInv (res_world (init_param beh p c w)).
+Proof.
+  intros HF. destruct p; cbn [init_param].
+  - apply rbind_K; [now apply add_global_event_FInv|intros; assumption].
+  - apply rbind_K; [now apply add_targeted_event_FInv|]. intros k w1 HF1. apply rbind_K; [now apply resolve_query_FInv|intros; assumption].
+  - apply rbind_K; [now apply resolve_query_FInv|intros; assumption].
+  - apply rbind_K; [now apply register_set_FInv|intros; assumption].
+Qed.
+Lemma init_params_FInv ps : forall c w, FInv w -> FInv (res_world (init_params beh ps c w)).
+Proof.
+  induction ps as [|p t IH]; intros c w HF; cbn [init_params]; [exact HF|].
+  apply rbind_K; [now apply init_param_FInv|]. intros c1 w1 HF1. now apply IH.
+Qed.
+
+Theorem add_handler_FInv sh w : FInv w -> FInv (res_world (add_handler beh sh w)).
+Proof.
+  intros HF. unfold add_handler. destruct (match sh_tid sh with Some t => alookup t (w_hby w) | None => None end); [exact HF|].
+  apply rbind_K; [now apply init_params_FInv|]. intros c w1 HF1.
+  destruct (cf_recv c) as [|rv|]; try exact HF1. destruct (cf_access c) as [acc|]; [|exact HF1].
+  destruct (handler_conflicts (cf_cas c)); [|exact HF1].
+  destruct (insert_with _ (w_hs w1)) as [[k hs]|]; [|exact HF1].
+  apply rbind_K; [|intros; assumption]. apply send_global_FInv. destruct HF1 as [HR1 HK1].
+  match goal with |- FInv (archs_register_handler ?w2 k) =>
+    destruct (archs_register_handler_structure w2 k) as [Hs Hg]; split;
+      [apply (RInv_structure w2); [exact Hs|exact Hg|exact HR1]
+      |apply (KInv_kreg w2); [apply kreg_archs_register_handler|exact (proj1 (structure_cshape _ _ Hs))|exact HK1]] end.
+Qed.
+
+Theorem remove_handler_FInv k w : FInv w -> FInv (res_world (remove_handler beh k w)).
+Proof.
+  intros HF. unfold remove_handler. destruct (sm_get k (w_hs w)) as [h0|]; [|exact HF]. clear h0.
+  apply rbind_K; [now apply send_global_FInv|]. intros [] w1 [HR1 HK1].
+  unfold handlers_remove. destruct (sm_remove k (w_hs w1)) as [[h1 hs]|]; [|split; assumption]. cbn [res_world].
+  match goal with |- FInv (archs_remove_handler ?w2 h1) =>
+    destruct (archs_remove_handler_structure w2 h1) as [Hs Hg]; split;
+      [apply (RInv_structure w2); [exact Hs|exact Hg|exact HR1]
+      |apply (KInv_kreg w2); [reflexivity|exact (proj1 (structure_cshape _ _ Hs))|exact HK1]] end.
+Qed.
+Lemma remove_handlers_FInv ks : forall w, FInv w -> FInv (res_world (remove_handlers beh ks w)).
+Proof.
+  induction ks as [|k t IH]; intros w HF; cbn [remove_handlers]; [exact HF|].
+  apply rbind_K; [now apply remove_handler_FInv|]. intros b w1 HF1. now apply IH.
+Qed.
+
+Theorem remove_global_event_FInv k w : FInv w -> FInv (res_world (remove_global_event beh k w)).
+Proof.
+  intros HF. unfold remove_global_event. destruct (sm_get k (w_gev w)); [|exact HF].
+  apply rbind_K; [now apply send_global_FInv|]. intros [] w1 HF1. apply rbind_K; [now apply remove_handlers_FInv|]. intros [] w2 [[HW2 HK2] HKK2].
+  destruct (sm_remove k (w_gev w2)) as [[info m]|] eqn:Er; [|split; [split|]; assumption]. cbn [res_world].
+  split; [split; [exact HW2|]|exact HKK2]. intros i k' info' Hg. cbn [w_gev set_gev] in Hg. eapply HK2. eapply gbi_remove; eauto.
+Qed.
+End Ops3.
+
+(* removing a targeted event: its key leaves the event lists of its component *)
+Lemma KInv_remove_tev w k info m tby c f :
+  KInv w -> sm_remove k (w_tev w) = Some (info, m) ->
+  (forall ci, c_tag (f ci) = c_tag ci /\ c_member_of (f ci) = c_member_of ci /\
+              forall x, x <> k -> In x (c_ins ci ++ c_rem ci) -> In x (c_ins (f ci) ++ c_rem (f ci))) ->
+  KInv (set_comps (set_tev w m tby) (upd_by_index (w_comps w) c f) (w_cby w)).
+Proof.
+  intros (S1 & S2 & K1 & K2 & K3 & K5) Er Hf. unfold KInv, comp_live. cbn [w_comps w_tev w_cby set_comps set_tev].
+  change (arch_at (set_comps (set_tev w m tby) (upd_by_index (w_comps w) c f) (w_cby w))) with (arch_at w).
+  split; [now apply upd_index_inv|]. split; [eapply remove_inv; eauto|]. split; [|split; [|split]].
+  - intros i k0 ci' Hg. rewrite gbi_upd in Hg. destruct (i =? c); [|exact (K1 i k0 ci' Hg)].
+    destruct (get_by_index (w_comps w) i) as [[k1 ci]|] eqn:E; [|discriminate]. inversion Hg; subst. destruct (Hf ci) as (_ & Hm & _). rewrite Hm. exact (K1 i k0 ci E).
+  - intros ai a i Ha Hin. rewrite gbi_upd. pose proof (K2 ai a i Ha Hin) as X. unfold comp_live in X. destruct (i =? c); [|exact X].
+    destruct (get_by_index (w_comps w) i) as [[k0 ci]|]; congruence.
+  - intros i k' info' c0 Hg Hk. pose proof (gbi_remove _ _ _ _ _ _ _ Er Hg) as Hold.
+    assert (Hne : k' <> k).
+    { intros ->. destruct (get_of_gbi _ _ _ _ Hg) as [_ X]. rewrite (remove_get_gone k (w_tev w) info m S2 Er) in X. discriminate. }
+    destruct (K3 i k' info' c0 Hold Hk) as (kc & ci & Hgc & Hin). rewrite gbi_upd, Hgc.
+    destruct (c0 =? c); [exists kc, (f ci); split; [reflexivity|apply (proj2 (proj2 (Hf ci))); assumption]|exists kc, ci; auto].
+  - intros tag k0 Hl. destruct (K5 tag k0 Hl) as (ci & Hg & Ht). pose proof (gbi_of_get _ _ _ Hg) as Hgi.
+    assert (X : exists ci', get_by_index (upd_by_index (w_comps w) c f) (fst k0) = Some (k0, ci') /\ c_tag ci' = tag).
+    { rewrite gbi_upd, Hgi. destruct (fst k0 =? c); [exists (f ci); split; [reflexivity|]; now rewrite (proj1 (Hf ci))|exists ci; auto]. }
+    destruct X as (ci' & Hg' & Ht'). exists ci'. split; [exact (proj2 (get_of_gbi _ _ _ _ Hg'))|exact Ht'].
+Qed.
+
+Lemma KInv_remove_tev0 w k info m tby : KInv w -> sm_remove k (w_tev w) = Some (info, m) -> KInv (set_tev w m tby).
+Proof.
+  intros (S1 & S2 & K1 & K2 & K3 & K5) Er. unfold KInv, comp_live. cbn [w_comps w_tev w_cby set_tev].
+  change (arch_at (set_tev w m tby)) with (arch_at w).
+  split; [exact S1|]. split; [eapply remove_inv; eauto|]. split; [exact K1|]. split; [exact K2|]. split; [|exact K5].
+  intros i k' info' c0 Hg Hk. exact (K3 i k' info' c0 (gbi_remove _ _ _ _ _ _ _ Er Hg) Hk).
+Qed.
+
+Lemma key_eqb_neq (x k : key) : x <> k -> key_eqb x k = false.
+Proof.
+  intros H. unfold key_eqb. destruct (fst x =? fst k) eqn:A; [|reflexivity]. destruct (snd x =? snd k) eqn:B; [|reflexivity].
+  apply N.eqb_eq in A, B. exfalso. apply H. destruct x, k. cbn in *. congruence.
+Qed.
+
+Section Ops4.
+Variable beh : hinfo -> logent -> N -> script.
+
+Theorem remove_targeted_event_FInv k w : FInv w -> FInv (res_world (remove_targeted_event beh k w)).
+Proof.
+  intros HF. unfold remove_targeted_event. destruct (sm_get k (w_tev w)); [|exact HF].
+  apply rbind_K; [now apply send_global_FInv|]. intros [] w1 HF1. apply rbind_K; [now apply remove_handlers_FInv|]. intros [] w2 [HR2 HK2].
+  destruct (sm_remove k (w_tev w2)) as [[info m]|] eqn:Er; [|split; assumption]. cbn [res_world].
+  split; [destruct (e_kind info); exact HR2|].
+  destruct (e_kind info) as [|c|c| |].
+  - eapply KInv_remove_tev0; eauto.
+  - change (KInv (set_comps (set_tev w2 m (aremove (e_tag info) (w_tby w2)))
+              (upd_by_index (w_comps w2) c (fun ci => mkC (c_tag ci) (c_member_of ci) (filter (fun x => negb (key_eqb x k)) (c_ins ci)) (c_rem ci))) (w_cby w2))).
+    eapply KInv_remove_tev; [exact HK2|exact Er|]. intros ci. cbn. repeat split. intros x Hx Hin.
+    apply in_app_or in Hin as [Hin|Hin]; apply in_or_app; [left; apply filter_In; split; [exact Hin|now rewrite key_eqb_neq]|now right].
+  - change (KInv (set_comps (set_tev w2 m (aremove (e_tag info) (w_tby w2)))
+              (upd_by_index (w_comps w2) c (fun ci => mkC (c_tag ci) (c_member_of ci) (c_ins ci) (filter (fun x => negb (key_eqb x k)) (c_rem ci)))) (w_cby w2))).
+    eapply KInv_remove_tev; [exact HK2|exact Er|]. intros ci. cbn. repeat split. intros x Hx Hin.
+    apply in_app_or in Hin as [Hin|Hin]; apply in_or_app; [now left|right; apply filter_In; split; [exact Hin|now rewrite key_eqb_neq]].
+  - eapply KInv_remove_tev0; eauto.
+  - eapply KInv_remove_tev0; eauto.
+Qed.
+
+Lemma remove_tevents_FInv ks : forall w, FInv w -> FInv (res_world (remove_tevents beh ks w)).
+Proof.
+  induction ks as [|k t IH]; intros w HF; cbn [remove_tevents]; [exact HF|].
+  apply rbind_K; [now apply remove_targeted_event_FInv|]. intros b w1 HF1. now apply IH.
+Qed.
+End Ops4.
+
+(* ---------- swap_remove_val on a duplicate-free list removes exactly that value ---------- *)
+Lemma nposition_split (a : N) l : In a l -> exists l1 l2, l = l1 ++ a :: l2 /\ ~ In a l1 /\ nposition (N.eqb a) l = Some (nlen l1).
+Proof.
+  induction l as [|h t IH]; intros Hin; [destruct Hin|]. cbn [nposition]. destruct (a =? h) eqn:E.
+  - apply N.eqb_eq in E. subst h. exists [], t. repeat split. intros [].
+  - destruct Hin as [->|Hin]; [rewrite N.eqb_refl in E; discriminate|]. destruct (IH Hin) as (l1 & l2 & -> & Hn & Hp).
+    exists (h :: l1), l2. split; [reflexivity|]. split; [intros [X|X]; [subst; rewrite N.eqb_refl in E; discriminate|contradiction]|].
+    rewrite Hp. cbn [option_map]. f_equal. rewrite nlen_cons. lia.
+Qed.
+Lemma nposition_none (a : N) l : ~ In a l -> nposition (N.eqb a) l = None.
+Proof.
+  induction l as [|h t IH]; intros Hn; [reflexivity|]. cbn [nposition]. destruct (a =? h) eqn:E; [apply N.eqb_eq in E; subst; exfalso; apply Hn; now left|].
+  rewrite IH; [reflexivity|]. intros X. apply Hn. now right.
+Qed.
+Lemma nset_app_mid {A} (l1 : list A) a l2 z : nset (l1 ++ a :: l2) (nlen l1) z = l1 ++ z :: l2.
+Proof.
+  induction l1 as [|h t IH]; [reflexivity|]. cbn [app nset]. rewrite nlen_cons.
+  replace (nlen t + 1 =? 0) with false by (symmetry; apply N.eqb_neq; lia). f_equal. replace (N.pred (nlen t + 1)) with (nlen t) by lia. exact IH.
+Qed.
+Lemma swap_remove_mid {A} (l1 : list A) a l2 : exists l2', swap_remove (l1 ++ a :: l2) (nlen l1) = l1 ++ l2' /\ (forall x, In x l2' <-> In x l2) /\ (NoDup l2 -> NoDup l2').
+Proof.
+  destruct l2 as [|b l2] using rev_ind.
+  - exists []. rewrite swap_remove_snoc, N.eqb_refl, app_nil_r. repeat split; auto.
+  - clear IHl2. exists (b :: l2). replace (l1 ++ a :: l2 ++ [b]) with ((l1 ++ a :: l2) ++ [b]) by (rewrite <- app_assoc; reflexivity).
+    rewrite swap_remove_snoc. replace (nlen l1 =? nlen (l1 ++ a :: l2)) with false by (symmetry; apply N.eqb_neq; rewrite nlen_app, nlen_cons; lia).
+    rewrite nset_app_mid. split; [reflexivity|]. split.
+    + intros x. rewrite in_app_iff. cbn [In]. tauto.
+    + intros Hnd. apply NoDup_remove in Hnd as [Hnd Hni]. rewrite app_nil_r in *. constructor; assumption.
+Qed.
+
+Lemma NoDup_app_r {A} (l1 l2 : list A) : NoDup (l1 ++ l2) -> NoDup l2.
+Proof. induction l1 as [|h t IH]; [auto|]. cbn [app]. intros H. inversion H; auto. Qed.
+
+Lemma swap_remove_val_spec a l : NoDup l -> NoDup (swap_remove_val a l) /\ forall x, In x (swap_remove_val a l) <-> In x l /\ x <> a.
+Proof.
+  intros Hnd. unfold swap_remove_val. destruct (in_dec N.eq_dec a l) as [Hin|Hn].
+  - destruct (nposition_split a l Hin) as (l1 & l2 & -> & Hn1 & ->).
+    destruct (swap_remove_mid l1 a l2) as (l2' & -> & Hin2 & Hnd2).
+    assert (Hnd' : NoDup (l1 ++ l2)) by (eapply NoDup_remove_1; eauto). assert (Hna : ~ In a (l1 ++ l2)) by (eapply NoDup_remove_2; eauto).
+    split.
+    + pose proof (NoDup_app_r _ _ Hnd') as Hl2. assert (Hd2 : NoDup l2') by (apply Hnd2; exact Hl2).
+      clear -Hnd' Hd2 Hin2. induction l1 as [|h t IH]; [exact Hd2|]. cbn [app] in *. inversion Hnd'; subst. constructor; [|now apply IH].
+      intros X. apply H1. apply in_app_or in X as [X|X]; apply in_or_app; [now left|right; now apply Hin2].
+    + intros x. rewrite !in_app_iff. cbn [In]. rewrite Hin2. split.
+      * intros [X|X]; (split; [tauto|]); intros ->; apply Hna; apply in_or_app; tauto.
+      * intros [[X|[X|X]] Hne]; [now left|congruence|now right].
+  - rewrite (nposition_none a l Hn). split; [exact Hnd|]. intros x. split; [intros H; split; [exact H|intros ->; contradiction]|tauto].
+Qed.
+
+(* ---------- the registry side of Archetypes::remove_component ---------- *)
+Section RCK.
+Variables (cidx ctag : N).
+
+(* KInv while the removed component is already gone from the registry but archetypes may still mention it *)
+Definition KJ (w : world) : Prop :=
+  SmInv (w_comps w) /\ SmInv (w_tev w) /\ get_by_index (w_comps w) cidx = None /\
+  (forall c k ci, get_by_index (w_comps w) c = Some (k, ci) ->
+     NoDup (c_member_of ci) /\
+     forall ai, In ai (c_member_of ci) <-> exists a, arch_at w ai = Some a /\ In c (a_comps a)) /\
+  (forall ai a c, arch_at w ai = Some a -> In c (a_comps a) -> c = cidx \/ comp_live w c) /\
+  (forall i k info c, get_by_index (w_tev w) i = Some (k, info) -> (e_kind info = KInsert c \/ e_kind info = KRemove c) ->
+     exists kc ci, get_by_index (w_comps w) c = Some (kc, ci) /\ In k (c_ins ci ++ c_rem ci)) /\
+  (forall tag k, alookup tag (w_cby w) = Some k -> exists ci, sm_get k (w_comps w) = Some ci /\ c_tag ci = tag).
+
+Lemma rc_step_kreg w ai a : slab_get (w_archs w) ai = Some a ->
+  kreg (rc_step cidx ctag w ai) =
+    (fold_upd (fun c => c =? cidx) (fun ci => mkC (c_tag ci) (swap_remove_val ai (c_member_of ci)) (c_ins ci) (c_rem ci)) (a_comps a) (w_comps w),
+     w_cby w, w_tev w).
+Proof.
+  intros Ha. unfold rc_step. rewrite Ha. cbn zeta.
+  rewrite (fold_left_pres kreg); [rewrite (fold_left_pres kreg); [reflexivity|]|].
+  - intros w' [e vals]. apply (fold_left_pres kreg). intros w'' [c v]. unfold drop_cval. now destruct (ctag_has_drop _).
+  - intros w' [e vals]. now destruct (sm_remove e (w_ents w')) as [[? ?]|].
+Qed.
+Lemma rc_step_kfields w ai a : slab_get (w_archs w) ai = Some a ->
+  w_comps (rc_step cidx ctag w ai) =
+    fold_upd (fun c => c =? cidx) (fun ci => mkC (c_tag ci) (swap_remove_val ai (c_member_of ci)) (c_ins ci) (c_rem ci)) (a_comps a) (w_comps w) /\
+  w_cby (rc_step cidx ctag w ai) = w_cby w /\ w_tev (rc_step cidx ctag w ai) = w_tev w.
+Proof. intros Ha. pose proof (rc_step_kreg w ai a Ha) as H. unfold kreg in H. injection H as A B C. auto. Qed.
+
+Lemma KJ_step w ai a : J cidx w -> KJ w -> arch_at w ai = Some a -> has_c cidx a -> KJ (rc_step cidx ctag w ai).
+Proof.
+  intros HJ (S1 & S2 & K0 & K1 & K2 & K3 & K5) Ha Hc.
+  destruct (J_step cidx ctag w ai a HJ Ha Hc) as (_ & Hat & _).
+  pose proof HJ as (_ & _ & _ & _ & _ & _ & Hso & _). assert (Hnd : NoDup (a_comps a)) by (apply sorted_NoDup; eapply Hso; eauto).
+  destruct (rc_step_kfields w ai a Ha) as (Ec & Eb & Et). set (w' := rc_step cidx ctag w ai) in *.
+  set (fm := fun ci => mkC (c_tag ci) (swap_remove_val ai (c_member_of ci)) (c_ins ci) (c_rem ci)) in *.
+  assert (Hg : forall i, get_by_index (w_comps w') i =
+     if existsb (N.eqb i) (a_comps a) && negb (i =? cidx) then match get_by_index (w_comps w) i with Some (k, v) => Some (k, fm v) | None => None end else get_by_index (w_comps w) i).
+  { intros i. rewrite Ec. apply (fold_upd_gbi (fun c => c =? cidx) fm (a_comps a) Hnd). }
+  assert (Hlive : forall c, comp_live w c -> comp_live w' c).
+  { unfold comp_live. intros c X. rewrite Hg. destruct (_ && _); [|exact X]. destruct (get_by_index (w_comps w) c) as [[k v]|]; congruence. }
+  split; [rewrite Ec; now apply fold_upd_inv|]. split; [now rewrite Et|]. split; [|split; [|split; [|split]]].
+  - rewrite Hg, K0. now destruct (_ && _).
+  - intros c k ci' Hgc. rewrite Hg in Hgc. destruct (existsb (N.eqb c) (a_comps a) && negb (c =? cidx)) eqn:Ecase.
+    + destruct (get_by_index (w_comps w) c) as [[k0 ci]|] eqn:E0; [|discriminate]. inversion Hgc; subst k0 ci'. destruct (K1 c k ci E0) as [Hnd0 Hm].
+      destruct (swap_remove_val_spec ai (c_member_of ci) Hnd0) as [Hnd1 Hin1]. cbn [c_member_of fm]. split; [exact Hnd1|].
+      intros aj. rewrite Hin1, Hm, Hat. split.
+      * intros [(b & Hb & Hin) Hne]. exists b. split; [|exact Hin]. now replace (aj =? ai) with false by (symmetry; now apply N.eqb_neq).
+      * intros (b & Hb & Hin). destruct (aj =? ai) eqn:E; [discriminate|]. apply N.eqb_neq in E. eauto.
+    + destruct (K1 c k ci' Hgc) as [Hnd0 Hm]. split; [exact Hnd0|]. intros aj. rewrite Hm, Hat. split.
+      * intros (b & Hb & Hin). exists b. split; [|exact Hin]. destruct (aj =? ai) eqn:E; [|exact Hb]. apply N.eqb_eq in E. subst aj.
+        rewrite Ha in Hb. inversion Hb; subst b. exfalso.
+        apply andb_false_iff in Ecase as [X|X].
+        -- apply existsb_In in Hin. congruence.
+        -- apply negb_false_iff, N.eqb_eq in X. subst c. congruence.
+      * intros (b & Hb & Hin). destruct (aj =? ai); [discriminate|eauto].
+  - intros aj b c Hb Hin. rewrite Hat in Hb. destruct (aj =? ai); [discriminate|]. destruct (K2 aj b c Hb Hin) as [X|X]; [now left|right; now apply Hlive].
+  - intros i k info c Hgi Hk. rewrite Et in Hgi. destruct (K3 i k info c Hgi Hk) as (kc & ci & Hgc & Hin). rewrite Hg, Hgc.
+    destruct (_ && _); [exists kc, (fm ci)|exists kc, ci]; split; auto.
+  - intros tag k Hl. rewrite Eb in Hl. destruct (K5 tag k Hl) as (ci & Hgk & Ht). pose proof (gbi_of_get _ _ _ Hgk) as Hgi.
+    assert (X : exists ci', get_by_index (w_comps w') (fst k) = Some (k, ci') /\ c_tag ci' = tag).
+    { rewrite Hg, Hgi. destruct (_ && _); [exists (fm ci)|exists ci]; split; auto. }
+    destruct X as (ci' & Hg' & Ht'). exists ci'. split; [exact (proj2 (get_of_gbi _ _ _ _ Hg'))|exact Ht'].
+Qed.
+
+Lemma fold_JK l : forall w, J cidx w -> KJ w -> NoDup l ->
+  (forall ai a, In ai l -> arch_at w ai = Some a -> has_c cidx a) -> KJ (fold_left (rc_step cidx ctag) l w).
+Proof.
+  induction l as [|ai l IH]; intros w HJ HK Hnd Hin; cbn [fold_left]; [exact HK|].
+  inversion Hnd as [|? ? Hni Hnd']; subst. destruct (arch_at w ai) as [a|] eqn:Ha.
+  - assert (Hc : has_c cidx a) by (eapply Hin; [now left|exact Ha]).
+    destruct (J_step cidx ctag w ai a HJ Ha Hc) as (HJ' & Hat & _). apply IH; [exact HJ'|now apply (KJ_step w ai a)|exact Hnd'|].
+    intros aj b Hj Hb. rewrite Hat in Hb. destruct (aj =? ai); [discriminate|]. eapply Hin; [right; exact Hj|exact Hb].
+  - rewrite (rc_step_dead cidx ctag w ai Ha). apply IH; auto. intros aj b Hj Hb. eapply Hin; [right; exact Hj|exact Hb].
+Qed.
+
+Lemma cshape_strip w : cshape (w_archs (strip cidx w)) = cshape (w_archs w).
+Proof. unfold strip, cshape. cbn [w_archs set_archs sl_entries]. rewrite map_map. apply map_ext. intros [a|n]; reflexivity. Qed.
+
+Lemma KJ_final w : KJ w -> (forall ai a, arch_at w ai = Some a -> ~ has_c cidx a) -> KInv (strip cidx w).
+Proof.
+  intros (S1 & S2 & K0 & K1 & K2 & K3 & K5) Hno. apply (KInv_ext w); try reflexivity; [apply cshape_strip|].
+  split; [exact S1|]. split; [exact S2|]. split; [exact K1|]. split; [|split; [exact K3|exact K5]].
+  intros ai a c Ha Hin. destruct (K2 ai a c Ha Hin) as [->|X]; [|exact X]. exfalso. exact (Hno ai a Ha Hin).
+Qed.
+End RCK.
+
+(* ---------- targeted events only disappear while a component is being removed ---------- *)
+Definition tev_le (w' w : world) : Prop := forall i x, get_by_index (w_tev w') i = Some x -> get_by_index (w_tev w) i = Some x.
+Lemma tev_le_refl w : tev_le w w. Proof. intros i x H. exact H. Qed.
+Lemma tev_le_trans a b c : tev_le a b -> tev_le b c -> tev_le a c. Proof. intros H1 H2 i x H. apply H2, H1, H. Qed.
+Lemma tev_le_eq w' w : w_tev w' = w_tev w -> tev_le w' w. Proof. intros E i x H. now rewrite <- E. Qed.
+Lemma tev_le_dead w' w k : tev_le w' w -> sm_get k (w_tev w) = None -> sm_get k (w_tev w') = None.
+Proof.
+  intros Hle Hd. destruct (sm_get k (w_tev w')) as [v|] eqn:E; [|reflexivity]. apply gbi_of_get in E. apply Hle in E.
+  destruct (get_of_gbi _ _ _ _ E) as [_ X]. congruence.
+Qed.
+
+Lemma creg_tev w' w : creg w' = creg w -> w_tev w' = w_tev w.
+Proof. intros H. exact (f_equal snd H). Qed.
+
+Section Ops5.
+Variable beh : hinfo -> logent -> N -> script.
+
+Lemma tev_send_global tag ev w : w_tev (res_world (send_global beh RFUEL tag ev w)) = w_tev w.
+Proof. apply creg_tev. apply creg_send_global. Qed.
+Lemma tev_remove_handler k w : w_tev (res_world (remove_handler beh k w)) = w_tev w.
+Proof.
+  unfold remove_handler. destruct (sm_get k (w_hs w)) as [h0|]; [|reflexivity]. clear h0.
+  pose proof (tev_send_global G_RMH (mkEv 0 0 k) w) as H. destruct (send_global beh RFUEL G_RMH (mkEv 0 0 k) w) as [[] w1|f w1]; cbn [rbind res_world] in *; [|exact H].
+  unfold handlers_remove. destruct (sm_remove k (w_hs w1)) as [[h1 hs]|]; exact H.
+Qed.
+Lemma tev_remove_handlers ks : forall w, w_tev (res_world (remove_handlers beh ks w)) = w_tev w.
+Proof.
+  induction ks as [|k t IH]; intros w; cbn [remove_handlers]; [reflexivity|].
+  pose proof (tev_remove_handler k w) as H. destruct (remove_handler beh k w) as [b w1|f w1]; cbn [rbind res_world] in *; [|exact H]. now rewrite IH.
+Qed.
+
+Lemma rte_post k w : FInv w ->
+  tev_le (res_world (remove_targeted_event beh k w)) w /\
+  match remove_targeted_event beh k w with ROk _ w' => sm_get k (w_tev w') = None | RFail _ _ => True end.
+Proof.
+  intros HF. unfold remove_targeted_event. destruct (sm_get k (w_tev w)) as [i0|] eqn:Hk; [|split; [apply tev_le_refl|exact Hk]].
+  pose proof (tev_send_global G_RMTE (mkEv 0 0 k) w) as H1. pose proof (send_global_FInv beh G_RMTE (mkEv 0 0 k) w HF) as F1.
+  destruct (send_global beh RFUEL G_RMTE (mkEv 0 0 k) w) as [[] w1|f w1]; cbn [rbind res_world] in *; [|split; [now apply tev_le_eq|exact I]].
+  match goal with |- context [remove_handlers beh ?ks w1] => pose proof (tev_remove_handlers ks w1) as H2; pose proof (remove_handlers_FInv beh ks w1 F1) as F2;
+    destruct (remove_handlers beh ks w1) as [[] w2|f w2] end; cbn [rbind res_world] in *; [|split; [apply tev_le_eq; congruence|exact I]].
+  destruct (sm_remove k (w_tev w2)) as [[info m]|] eqn:Er; cbn [res_world]; [|split; [apply tev_le_eq; congruence|exact I]].
+  assert (S2 : SmInv (w_tev w2)) by (destruct F2 as [_ (_ & X & _)]; exact X).
+  assert (Ht4 : forall w4, w_tev w4 = m -> tev_le w4 w /\ sm_get k (w_tev w4) = None).
+  { intros w4 E4. split.
+    - intros i x Hg. rewrite E4 in Hg. destruct x as [k' info']. pose proof (gbi_remove _ _ _ _ _ _ _ Er Hg) as X. now rewrite H2, H1 in X.
+    - rewrite E4. eapply remove_get_gone; eauto. }
+  destruct (e_kind info); apply Ht4; reflexivity.
+Qed.
+
+Lemma rtes_post ks : forall w, FInv w ->
+  tev_le (res_world (remove_tevents beh ks w)) w /\
+  match remove_tevents beh ks w with ROk _ w' => forall k, In k ks -> sm_get k (w_tev w') = None | RFail _ _ => True end.
+Proof.
+  induction ks as [|k t IH]; intros w HF; cbn [remove_tevents]; [split; [apply tev_le_refl|intros k []]|].
+  destruct (rte_post k w HF) as [L1 D1]. pose proof (remove_targeted_event_FInv beh k w HF) as F1.
+  destruct (remove_targeted_event beh k w) as [b w1|f w1]; cbn [rbind res_world] in *; [|split; [exact L1|exact I]].
+  destruct (IH w1 F1) as [L2 D2]. split; [eapply tev_le_trans; eauto|].
+  destruct (remove_tevents beh t w1) as [[] w2|f w2]; cbn [res_world] in *; [|exact I].
+  intros k' [<-|Hin]; [eapply tev_le_dead; eauto|now apply D2].
+Qed.
+End Ops5.
+
+(* ---------- World::remove_component ---------- *)
+Section Ops6.
+Variable beh : hinfo -> logent -> N -> script.
+
+Lemma gev_rc_fold cidx ctag l : forall w, w_gev (fold_left (rc_step cidx ctag) l w) = w_gev w.
+Proof.
+  induction l as [|ai l IH]; intros w; cbn [fold_left]; [reflexivity|]. rewrite IH.
+  destruct (slab_get (w_archs w) ai) as [a|] eqn:Ha; [exact (proj2 (proj2 (proj2 (rc_step_fields cidx ctag w ai a Ha))))|].
+  unfold rc_step. now rewrite Ha.
+Qed.
+
+Theorem remove_component_FInv k w : FInv w -> FInv (res_world (remove_component beh k w)).
+Proof.
+  intros HF. unfold remove_component. destruct (sm_get k (w_comps w)) as [ci0|]; [|exact HF]. clear ci0.
+  apply rbind_K; [now apply send_global_FInv|]. intros [] w1 HF1.
+  apply rbind_K; [now apply add_targeted_event_FInv|]. intros dk w2 HF2.
+  apply rbind_K; [now apply flush_FInv|]. intros [] w3 HF3.
+  apply rbind_K; [now apply remove_handlers_FInv|]. intros [] w4 HF4.
+  destruct (sm_get k (w_comps w4)) as [ci|] eqn:Hk4; [|exact HF4].
+  destruct (rtes_post beh (c_ins ci ++ c_rem ci) w4 HF4) as [Hle Hdead]. pose proof (remove_tevents_FInv beh (c_ins ci ++ c_rem ci) w4 HF4) as HF5.
+  destruct (remove_tevents beh (c_ins ci ++ c_rem ci) w4) as [[] w5|f w5]; cbn [rbind res_world] in *; [|exact HF5].
+  destruct (sm_remove k (w_comps w5)) as [[ci' m]|] eqn:Er; [|exact HF5]. cbn [res_world].
+  set (w6 := set_comps w5 m (aremove (c_tag ci') (w_cby w5))).
+  destruct HF5 as [[HW5 HG5] HK5]. pose proof HK5 as (S1 & S2 & K1 & K2 & K3 & K5).
+  pose proof (remove_get_self k (w_comps w5) ci' m Er) as Hk5. pose proof (gbi_of_get _ _ _ Hk5) as Hgk5.
+  (* no targeted event about the component is left *)
+  assert (P5 : forall i kk info, get_by_index (w_tev w5) i = Some (kk, info) -> e_kind info <> KInsert (fst k) /\ e_kind info <> KRemove (fst k)).
+  { intros i kk info Hg. assert (Hlive : sm_get kk (w_tev w5) <> None) by (destruct (get_of_gbi _ _ _ _ Hg) as [_ X]; congruence).
+    destruct HF4 as [_ (_ & _ & _ & _ & K34 & _)]. pose proof (gbi_of_get _ _ _ Hk4) as Hg4.
+    assert (Hx : forall c, e_kind info = KInsert c \/ e_kind info = KRemove c -> c = (fst k) -> False).
+    { intros c Hc ->. destruct (K34 i kk info (fst k) (Hle _ _ Hg) Hc) as (kc & ci4 & Hgc & Hin). rewrite Hg4 in Hgc. inversion Hgc; subst ci4.
+      apply Hlive. now apply Hdead. }
+    split; intros X; eapply Hx; eauto. }
+  (* the world with the component unregistered satisfies the loop invariants *)
+  assert (HW6 : WInv w6) by (eapply WInv_ext; [| | |exact HW5]; reflexivity).
+  assert (Hmem : forall ai a, arch_at w6 ai = Some a -> (In ai (c_member_of ci') <-> In (fst k) (a_comps a))).
+  { intros ai a Ha. destruct (K1 (fst k) k ci' Hgk5) as [_ Hm]. rewrite Hm. change (arch_at w6) with (arch_at w5) in Ha. split.
+    - intros (b & Hb & Hin). congruence.
+    - intros Hin. eauto. }
+  assert (Hnd : NoDup (c_member_of ci')) by (exact (proj1 (K1 (fst k) k ci' Hgk5))).
+  assert (HKJ : KJ (fst k) w6).
+  { unfold KJ. cbn [w_comps w_tev w_cby w6 set_comps]. change (arch_at (set_comps w5 m (aremove (c_tag ci') (w_cby w5)))) with (arch_at w5).
+    split; [eapply remove_inv; eauto|]. split; [exact S2|]. split; [eapply gbi_remove_self; eauto|]. split; [|split; [|split]].
+    - intros c kc cc Hg. destruct (N.eq_dec c (fst k)) as [->|Hne]; [rewrite (gbi_remove_self _ _ _ _ Er) in Hg; discriminate|].
+      rewrite (gbi_remove_other _ _ _ _ c Er Hne) in Hg. exact (K1 c kc cc Hg).
+    - intros ai a c Ha Hin. destruct (N.eq_dec c (fst k)) as [->|Hne]; [now left|right]. unfold comp_live, w6. cbn [w_comps set_comps].
+      rewrite (gbi_remove_other _ _ _ _ c Er Hne). exact (K2 ai a c Ha Hin).
+    - intros i kk info c Hg Hc. destruct (K3 i kk info c Hg Hc) as (kc & cc & Hgc & Hin). exists kc, cc. split; [|exact Hin].
+      rewrite (gbi_remove_other _ _ _ _ c Er); [exact Hgc|]. intros ->. destruct (P5 i kk info Hg) as [X Y]. destruct Hc; contradiction.
+    - intros tag k' Hl. destruct (N.eq_dec tag (c_tag ci')) as [->|Hne]; [rewrite alookup_aremove_eq in Hl; discriminate|].
+      rewrite alookup_aremove_neq in Hl by exact Hne. destruct (K5 tag k' Hl) as (cc & Hg & Ht). exists cc. split; [|exact Ht].
+      rewrite (remove_get_other k (w_comps w5) ci' m k' S1 Er); [exact Hg|]. intros ->. rewrite Hk5 in Hg. inversion Hg; subst cc. congruence. }
+  destruct (archs_remove_component_ok (fst k) (c_tag ci') w6 (c_member_of ci') HW6 Hnd Hmem) as (HW7 & Hat7 & _). cbn zeta in HW7, Hat7.
+  split; [split|].
+  - exact HW7.
+  - intros i kk info Hg. apply (HG5 i kk info). rewrite archs_remove_component_unfold in Hg. unfold strip, refresh_cursor in Hg. cbn [w_gev set_archs set_res] in Hg.
+    now rewrite gev_rc_fold in Hg.
+  - rewrite archs_remove_component_unfold. apply KJ_final.
+    + apply fold_JK; [now apply WInv_J|exact HKJ|exact Hnd|]. intros ai a Hi Ha. now apply (Hmem ai a Ha).
+    + intros ai a Ha. pose proof (Hat7 ai) as X. rewrite archs_remove_component_unfold, strip_arch_at, Ha in X. cbn [option_map] in X.
+      destruct (arch_at w6 ai) as [a6|]; [|discriminate]. destruct (existsb (N.eqb (fst k)) (a_comps a6)) eqn:E; [discriminate|].
+      inversion X as [Y]. intros Hc. unfold has_c in Hc.
+      assert (Hca : a_comps a = a_comps a6).
+      { match goal with E : a_comps a = a_comps a6 |- _ => exact E end. }
+      rewrite Hca in Hc. apply existsb_In in Hc. congruence.
+Qed.
+End Ops6.
+
+(* ---------- every world reachable through ALL top-level calls of the driver ---------- *)
+Inductive top_all := TA (o : top) | TRemoveComponent (k : key).
+
+Definition run_top_all (beh : hinfo -> logent -> N -> script) (w : world) (o : top_all) : world :=
+  match o with
+  | TA o => run_top beh w o
+  | TRemoveComponent k => res_world (remove_component beh k w)
+  end.
+
+Lemma FInv_world0 fuel p : FInv (world0 fuel p).
+Proof.
+  split; [apply RInv_world0|]. unfold KInv, world0, comp_live, arch_at. cbn [w_comps w_tev w_cby w_archs].
+  split; [apply empty_inv|]. split; [apply empty_inv|]. split; [|split; [|split]].
+  - intros c k ci H. discriminate.
+  - intros ai a c Ha Hin. unfold slab_get in Ha. cbn [sl_entries nget] in Ha. destruct (ai =? 0); [|discriminate]. inversion Ha; subst. destruct Hin.
+  - intros i k info c H. discriminate.
+  - intros tag k H. discriminate.
+Qed.
+
+Lemma run_top_all_FInv beh w o : FInv w -> FInv (run_top_all beh w o).
+Proof.
+  intros HF. destruct o as [o|k]; cbn [run_top_all]; [|now apply remove_component_FInv]. destruct o; cbn [run_top].
+  - now apply op_spawn_FInv. - now apply op_insert_FInv. - now apply op_remove_FInv. - now apply op_despawn_FInv.
+  - now apply op_send_FInv. - now apply op_send_to_FInv. - now apply add_handler_FInv. - now apply remove_handler_FInv.
+  - exact (proj1 (add_component_FInv beh tag w HF)). - now apply add_global_event_FInv. - now apply add_targeted_event_FInv.
+  - now apply remove_global_event_FInv. - now apply remove_targeted_event_FInv.
+Qed.
+
+(* C14 / C17 / C01 / C02 on the model: whatever sequence of calls is made - including removals of
+   component types with populated archetypes - with whatever handler bodies, panics and fuel, the
+   resulting world satisfies the storage, graph and registry invariants *)
+Theorem reachable_FInv beh fuel p ops : FInv (fold_left (run_top_all beh) ops (world0 fuel p)).
+Proof. apply fold_left_invariant; [apply FInv_world0|]. intros w o. apply run_top_all_FInv. Qed.
